@@ -2,7 +2,7 @@
 axiom instances for exp/ln/sqrt/powf/powi on the terms that occur."""
 import time, random, math
 import z3
-from ..vm import VM, Machine, Struct, Enum, Ref, UNIT, NONE, SOME, ret, Unmodelled
+from ..vm import VM, Machine, Struct, Enum, Seq, Ref, Opaque, UNIT, NONE, SOME, OK, ERR, ret, Unmodelled, VMError
 from ..alg import RealAlg, ConcAlg, Fl
 from ..layout import Layouts
 from ..driver import load_mir, REPO, model_to_json
@@ -26,6 +26,8 @@ def run(rep):
     adam(rep, mir, L)
     collector(rep, mir, L)
     validate(rep, mir, L)
+    from ..driver import parts
+    parts(rep, [lambda: init_search(rep, mir, L)])
 
 # ------------------------------------------------------------------------------------------------
 def dual_average(rep, mir, L):
@@ -216,3 +218,112 @@ def validate(rep, mir, L):
 def native_da_monotone(model): return None
 def native_da_formula(model, nm): return None
 def native_adam(model): return None
+
+# ------------------------------------------------------------------------------------------------
+def init_search(rep, mir, L, prefix='C07.6'):
+    """Strategy::init (doubling / halving search) from the MIR with an oracle Hamiltonian whose leapfrog returns Ok with an arbitrary energy,
+    a divergence or an error; the real AcceptanceRateCollector sees every trial.  Also decides C05(3): a faulty trial only discards that trial."""
+    K = 3 if rep.tier == 'quick' else 6
+    from ..mathenv import install_misc
+    results = {'bad': {}, 'kinds': set(), 'paths': 0}
+    en_m = None
+    for method in ('DualAverage', 'Adam', 'Fixed'):
+        A = RealAlg(); vm = VM(mir, A); install_misc(vm); vm.enums.setdefault('Either', ['Left', 'Right'])
+        fn = mir.method('Strategy', None, 'init', file='stepsize')
+        en = vm.enums['StepSizeAdaptMethod']
+        da_opts = L.make('DualAverageOptions', {'k': A.fresh('k'), 't0': A.fresh('t0'), 'gamma': A.fresh('gamma'), 'max_step_size': A.fresh('max_step')})
+        adam_opts = L.make('AdamOptions', {'beta1': A.fresh('beta1'), 'beta2': A.fresh('beta2'), 'epsilon': A.fresh('adam_eps'), 'learning_rate': A.fresh('lr')})
+        meth = Enum(en.index('Fixed'), 'Fixed', (A.fresh('fixed_val'),), 'StepSizeAdaptMethod') if method == 'Fixed' else Enum(en.index(method), method, (), 'StepSizeAdaptMethod')
+        ao = L.make('StepSizeAdaptOptions', {'method': meth, 'dual_average': da_opts, 'adam': adam_opts})
+        init_step = A.fresh('initial_step'); target = A.fresh('target')
+        ss = L.make('StepSizeSettings', {'target_accept': target, 'initial_step': init_step, 'jitter': NONE(), 'adapt_options': ao})
+        # the estimator object as Strategy::new builds it
+        new = mir.method('Strategy', None, 'new', file='stepsize'); m = Machine(); m.ghost['events'] = []
+        (m, k, strat) = vm.run(new, [ss], m)[0]; sc = m.alloc(strat)
+        step_cell = m.alloc(A.fresh('old_step')); m.pc += [init_step.v > 0, target.v > 0, target.v < 1]
+        vm.add_model(r' as Hamiltonian<M>>::step_size_mut$', lambda vm, m, c, a, step_cell=step_cell: ret(m, Ref(step_cell)))
+        vm.add_model(r' as Hamiltonian<M>>::step_size$', lambda vm, m, c, a, step_cell=step_cell: ret(m, vm.read_at(m, step_cell, [])))
+        def init_state(vm, m, c, a):
+            outs = []
+            for ok in (True, False):
+                m2 = m.clone(); m2.log('events', ('init_state', ok))
+                outs.append((m2, 'ret', OK(Ref(m2.alloc(Struct((A.fresh('E_start'),), 'AbsState')))) if ok else Enum(1, 'Err', (Struct((), 'NutsError'),), 'Result')))
+            return outs
+        vm.add_model(r' as Hamiltonian<M>>::init_state$', init_state)
+        vm.add_model(r' as Hamiltonian<M>>::initialize_trajectory::<R>$', lambda vm, m, c, a: (m.log('events', ('initialize_trajectory', a[3])), ret(m, OK(UNIT)))[1])
+        vm.add_model(r'^State::<M, P>::point$', lambda vm, m, c, a: ret(m, a[0]))
+        def deref_state(vm, m, r):
+            v = r
+            while isinstance(v, Ref): v = vm.read_at(m, v.cell, v.path)
+            return v
+        vm.add_model(r'^<P as Point<M>>::initial_energy$', lambda vm, m, c, a: ret(m, deref_state(vm, m, a[0]).f[0]))
+        vm.add_model(r'^State::<M, P>::energy$', lambda vm, m, c, a: ret(m, deref_state(vm, m, a[0]).f[0]))
+        reg = mir.method('AcceptanceRateCollector', 'Collector', 'register_leapfrog')
+        def leapfrog(vm, m, c, a):
+            ntr = len([e for e in m.ghost['events'] if e[0] == 'trial'])
+            kinds = ['ok', 'div', 'err'] if ntr <= K else ['err']
+            outs = []
+            for kd in kinds:
+                m2 = m.clone(); eps_now = vm.read_at(m2, step_cell, [])
+                if kd == 'ok':
+                    e = A.fresh('E_trial_%d' % ntr); end = Ref(m2.alloc(Struct((e,), 'AbsState')))
+                    for (m3, k3, v3) in list(vm.exec_fn(m2, reg, [a[7], a[1], a[2], end, NONE()])):
+                        if k3 != 'ret': outs.append((m3, k3, v3)); continue
+                        m3.log('events', ('trial', 'ok', a[3].name, eps_now.v, e.v)); outs.append((m3, 'ret', Enum(0, 'Ok', (end,), 'LeapfrogResult')))
+                elif kd == 'div':
+                    m2.log('events', ('trial', 'div', a[3].name, eps_now.v, None)); outs.append((m2, 'ret', Enum(1, 'Divergence', (Struct((), 'DivergenceInfo'),), 'LeapfrogResult')))
+                else:
+                    m2.log('events', ('trial', 'err', a[3].name, eps_now.v, None)); outs.append((m2, 'ret', Enum(2, 'Err', (Struct(('unrec',), 'LogpErrOracle'),), 'LeapfrogResult')))
+            return outs
+        vm.add_model(r' as Hamiltonian<M>>::leapfrog::<AcceptanceRateCollector>$', leapfrog)
+        vm.add_model(r'^State::<M, P>::energy$', lambda vm, m, c, a: ret(m, deref_state(vm, m, a[0]).f[0]))
+        pos = m.alloc(Seq([A.fresh('x0')]))
+        from ..vm import SliceRef
+        vm.solver.set('timeout', 5000); vm.unknown_is_feasible = True
+        ax_bg = []
+        outs = list(vm.exec_fn(m, fn, [Ref(sc), Ref(m.alloc(Opaque('math'))), Ref(m.alloc(Opaque('nuts_options'))), Ref(m.alloc(Opaque('ham'))), SliceRef(pos, (), 0, 1), Ref(m.alloc(Opaque('rng')))]))
+        results['paths'] += len(outs); rep.absorb_vm(vm); rep.paths += len(outs)
+        exp = A.uf['exp']
+        for (m2, k, v) in outs:
+            ev = m2.ghost['events']; trials = [e for e in ev if e[0] == 'trial']; where = {'method': method, 'trials': [(t[1], t[2]) for t in trials]}
+            ax = []
+            for (nm, args, term) in A.used:
+                if nm == 'exp': ax += [term > 0, z3.Implies(args[0] <= 0, term <= 1), z3.Implies(args[0] >= 0, term >= 1)]
+            sol = z3.Solver(); sol.set('timeout', 20000); sol.add(*m2.pc); sol.add(*ax)
+            if sol.check() == z3.unsat: continue          # infeasible once exp is constrained
+            if k == 'panic': results['bad'].setdefault('panic', ('Strategy::init panics: %s' % (str(v)[:120],), where)); continue
+            step = vm.read_at(m2, step_cell, []).v
+            if any(e == ('init_state', False) for e in ev):
+                if v.name != 'Err': results['bad'].setdefault('init_err', ('a failing init_state is not reported', where))
+                results['kinds'].add('init_err'); continue
+            if v.name != 'Ok': results['bad'].setdefault('spurious_err', ('Strategy::init returns Err although init_state succeeded (faulty trial steps must only be discarded)', where)); continue
+            if method == 'Fixed':
+                sol.push(); sol.add(step != z3.Real('fixed_val')); r = sol.check(); sol.pop()
+                if r != z3.unsat or trials: results['bad'].setdefault('fixed', ('Fixed step size not installed / search run for a fixed step size', where))
+                results['kinds'].add('fixed'); continue
+            if trials and trials[-1][1] != 'ok':
+                results['kinds'].add('faulty_trial')
+                sol.push(); sol.add(step != init_step.v); r = sol.check(); sol.pop()
+                if r != z3.unsat: results['bad'].setdefault('fault_keeps_initial', ('after a faulty trial step the step size is not reset to initial_step', where))
+                continue
+            if len(trials) > K + 1: continue
+            # acceptance exit: acc_j = exp(min(0, E_start - E_j)); direction from the first trial
+            accs = [exp(z3.If(z3.Real('E_start') - t[4] <= 0, z3.Real('E_start') - t[4], 0)) for t in trials]
+            if len(trials) >= 2:
+                results['kinds'].add('bracket')
+                up = accs[0] > target.v            # first trial above target -> search upward (doubling)
+                loop = accs[1:]; last = loop[-1]; earlier = loop[:-1]
+                capped = z3.Or(step > z3.RealVal(100000), step < z3.RealVal('1/10000000000'))
+                brack = z3.If(up, z3.And(last <= target.v, *[e > target.v for e in earlier]), z3.And(last >= target.v, *[e < target.v for e in earlier]))
+                sol.push(); sol.add(z3.Not(z3.Or(brack, capped))); r = sol.check(); sol.pop()
+                if r == z3.sat: results['bad'].setdefault('bracket', ('the search stops although the last two trial steps do not bracket target_accept', where))
+                # the adopted step is initial * 2^(+-(n-1)) and the estimator is re-created at it
+                n = len(loop); want = init_step.v * (z3.If(up, z3.RealVal(2), z3.RealVal('1/2')) ** 1 if False else 1)
+                f = z3.RealVal(1)
+                for _ in range(n - 1): f = f * z3.If(up, z3.RealVal(2), z3.RealVal('1/2'))
+                sol.push(); sol.add(step != init_step.v * f); r = sol.check(); sol.pop()
+                if r == z3.sat: results['bad'].setdefault('adopted_step', ('the adopted step size is not initial_step * 2^(+-(trials-1))', where))
+    for need in ('bracket', 'faulty_trial', 'fixed', 'init_err'): rep.cover('%s step-size search outcome explored: %s' % (prefix, need), need in results['kinds'])
+    for key, (what, where) in results['bad'].items():
+        rep.violated('%s Strategy::init: %s' % (prefix, key), 'init_search.' + key, '%s %s' % (what, where), model={'where': str(where)})
+    if not results['bad']: rep.holds('%s Strategy::init: exits through the acceptance test only when the last trial is on the other side of target_accept than all earlier ones (or at the 1e5 / 1e-10 caps), adopts initial*2^(+-n), a faulty trial resets to initial_step and returns Ok, Fixed installs the fixed value, no panic (<= %d trials, %d paths)' % (prefix, K + 1, results['paths']))
